@@ -54,6 +54,17 @@ CLAIMED['C19'] = dict(
          'reading arbitrary bytes returns only valid sysex messages or raises ValueError. Built on the parser theorems (C04/C06) and the hex lemmas (C01).',
     note='Coq kernel; no axioms; the file system is modelled as byte-exact storage (the harness uses real files in a scratch directory).',
     technique='Coq proof (induction over message lists and layouts) + model/implementation correspondence on real files', design='5/C19')
+CLAIMED['C07'] = dict(
+    text='Theorem C07_roundtrip over a byte-level model of save/load (chunks, variable-length quantities, running status, meta and sysex events, '
+         'end_of_track folding): for ANY file whose events are valid, if save succeeds then load returns the same type, ticks_per_beat, track count and '
+         'every track normalised to exactly one trailing end_of_track; proved by a per-event lemma under the running-status invariant and an induction over '
+         'the event list, with no bound on sizes. Plus: save refuses real-time messages / negative or non-integer times / a type-0 file without exactly one '
+         'track, and raises nothing but ValueError or struct.error. The saved bytes are compared byte for byte with the real save(), and the model reader '
+         'with the real reader on saved and mutated files.',
+    note='Coq kernel; no axioms; text codecs are a parameter with the hypothesis "decodes what it encodes" (latin-1 and ASCII are concrete instances); the '
+         'load-save-load fixed-point clause is checked on the implementation for every byte string that loads (oracle) but is not yet a theorem about '
+         'arbitrary bytes; unstorable times are judged after end_of_track folding.',
+    technique='Coq proof (invariant + induction over events, tracks, files) + byte-exact model/implementation correspondence', design='5/C07')
 NOT_YET = {}
 ALL = ['C%02d' % i for i in range(1, 21)]
 
